@@ -57,6 +57,8 @@ def run(chk):
 
 
 MUTANTS = [
+    ('energy shift on the fixed start tensor', 'yastn/tn/mps/_tdvp.py', '        f = lambda x: env.Heff2(x, bd) - E0 * x', '        f = lambda x: env.Heff2(x, bd) - E0 * AA', 'T5'),
+    ('composition constant as a wrong expression', 'yastn/tn/mps/_tdvp.py', '                s2 = 0.41449077179437573714', '                s2 = 1 / (4 - 4 ** 1 / 3)', 'T2'),
     ("flip sign of backward step", "yastn/tn/mps/_tdvp.py",
      "            env.update_env_(n, to=to)\n            _update_C(env, u * 0.5 * dt, opts, normalize=normalize, subtract_E=subtract_E)\n            psi.absorb_central_(to=to)\n\n    env.update_env_(psi.first, to='first')",
      "            env.update_env_(n, to=to)\n            _update_C(env, -u * 0.5 * dt, opts, normalize=normalize, subtract_E=subtract_E)\n            psi.absorb_central_(to=to)\n\n    env.update_env_(psi.first, to='first')", "T1"),
